@@ -19,7 +19,8 @@ package suites
 //	arg2… tokens: "C" starts a Connect call; "L<age>,<dial>,<hs>,<end>" starts a connection
 //	      script (age: scripted seconds that pass before the dial; dial 1/0; hs 1 ok, 0 peer
 //	      closes after the ClientHello, 2 peer answers in plaintext; end c = application
-//	      calls Close(), e = peer closes); "E<params joined by LF>" is one CAP event the
+//	      calls Close(), e = peer closes, x = peer hangs up together with its last line,
+//	      without waiting for the answer); "E<params joined by LF>" is one CAP event the
 //	      peer sends on the current connection.
 //
 // Scripted time: the harness moves the policy's two timestamps into the past through a
@@ -191,6 +192,7 @@ type stsEvRec struct {
 	params   []string
 	lines    []string // canonical renderings of what the client wrote in answer
 	closed   bool     // the client closed the connection instead of / after answering
+	hung     bool     // the peer hung up together with this line: no answer was collected
 	upgraded bool     // STS_UPGRADE_INIT fired while this event was outstanding
 }
 
@@ -406,6 +408,12 @@ func (r *stsRun) servePeer(leg stsLeg, rec *stsLegRec, raw net.Conn) {
 			}
 		}
 		send(stsEventLine(params) + "\r\n")
+		if leg.end == 'x' && k == len(leg.events)-1 {
+			// the peer hangs up at the very moment of its last line
+			ev.hung = true
+			rec.evs = append(rec.evs, ev)
+			return
+		}
 		if isAck {
 			// An acknowledgement is answered by exactly one line or by the client closing
 			// the connection; nothing is sent after it until that answer was seen, so that
@@ -434,7 +442,7 @@ func (r *stsRun) servePeer(leg stsLeg, rec *stsLegRec, raw net.Conn) {
 	if closed {
 		return
 	}
-	if leg.end == 'e' {
+	if leg.end == 'e' || leg.end == 'x' {
 		return // deferred Close: the peer goes away
 	}
 	r.c.Close()
@@ -570,6 +578,10 @@ func renderSTS(initPol string, recs []*stsConnRec) string {
 			default:
 				sb.WriteString(lg.first)
 				for _, ev := range lg.evs {
+					if ev.hung {
+						sb.WriteString(";x")
+						continue
+					}
 					parts := append([]string(nil), ev.lines...)
 					if ev.closed {
 						switch {
@@ -675,6 +687,9 @@ func stsOracle(sc stsScript, recs []*stsConnRec, slack time.Duration) string {
 	disabled, ssl, nofallback := stsHas(sc.bits, 'D'), stsHas(sc.bits, 'L'), stsHas(sc.bits, 'F')
 	cfgAddr := net.JoinHostPort(stsHost, strconv.Itoa(stsCfgPort))
 	for ci, cr := range recs {
+		if cr.polAfter.BeginUpgrade {
+			return fmt.Sprintf("upgrade-lost-on-close: connect %d returned %s with beginUpgrade still set", ci, cr.ret)
+		}
 		for li, lg := range cr.legs {
 			last := li == len(cr.legs)-1
 			wantTLS := ssl || lg.polAtDial.Enabled
@@ -771,6 +786,23 @@ func stsOracle(sc stsScript, recs []*stsConnRec, slack time.Duration) string {
 				}
 			}
 			ack := lg.evs[ackIdx]
+			if ack.hung {
+				// the server hung up with the acknowledgement: nothing can be said about
+				// lines, but a valid policy on plaintext must still lead to the secure redial
+				if port, usable := stsUsablePort(kv); !disabled && requested && lg.first == "P" && usable {
+					if last {
+						return fmt.Sprintf("upgrade-lost-on-close: connect %d: server hung up with the sts acknowledgement, Connect returned %s without the secure redial", ci, cr.ret)
+					}
+					nx := cr.legs[li+1]
+					if want := net.JoinHostPort(stsHost, strconv.Itoa(port)); nx.addr != want {
+						return fmt.Sprintf("redial-addr: connect %d redialled %s, policy port is %d", ci, nx.addr, port)
+					}
+					if nx.connected && nx.first == "P" {
+						return fmt.Sprintf("redial-plaintext: connect %d redial to %s started in plaintext", ci, nx.addr)
+					}
+				}
+				continue
+			}
 			switch {
 			case disabled:
 				if ack.closed || len(ack.lines) != 1 {
@@ -856,7 +888,9 @@ func stsSig(recs []*stsConnRec) string {
 				s += "h"
 			default:
 				for _, ev := range lg.evs {
-					if ev.upgraded {
+					if ev.hung {
+						s += "x"
+					} else if ev.upgraded {
 						s += "U"
 					} else if ev.closed {
 						s += "E"
@@ -1255,84 +1289,61 @@ func fixedSTSExpiry() []Case {
 
 // ---------------------------------------------------------------- sts.closeatack
 //
-// The server acknowledges a valid policy on plaintext and hangs up at the same moment (what
-// an on-path attacker can always do). Which of the two ends the connection first is a race
-// inside the client, so this is not part of the differential scenarios: the probe repeats
-// the exchange and reports if ANY repetition ends with Connect returning without the secure
-// redial. The observation is constant; the model has no such input (its scripts assume that
-// the teardown after the upgrade's Close() reports no error). Not listed in conf/C10.json
-// until the integrator has decided about the finding (see notes/proposed-fixes).
-func runSTSCloseAtAck(c Case) Result {
-	reps := 40
-	lost, stuck := 0, 0
-	for i := 0; i < reps; i++ {
-		var mu sync.Mutex
-		var dials []string
-		cl := girc.New(girc.Config{Server: stsHost, Port: stsCfgPort, Nick: "me", User: "user", AllowFlood: true,
-			RecoverFunc: func(*girc.Client, *girc.HandlerError) {}})
-		d := stsFuncDialer(func(addr string) (net.Conn, error) {
-			mu.Lock()
-			dials = append(dials, addr)
-			n := len(dials)
-			mu.Unlock()
-			if n > 1 {
-				return nil, errors.New("scripted dial failure")
-			}
-			cli, srv := net.Pipe()
-			go func() {
-				defer srv.Close()
-				r := bufio.NewReader(srv)
-				srv.SetDeadline(time.Now().Add(stsPeerWait))
-				for {
-					l, err := r.ReadString('\n')
-					if err != nil {
-						return
-					}
-					if strings.HasPrefix(l, "USER ") {
-						break
-					}
-				}
-				srv.Write([]byte(":srv CAP * LS :sts=port=6697\r\n"))
-				if _, err := r.ReadString('\n'); err != nil {
-					return
-				}
-				srv.Write([]byte(":srv CAP * ACK :sts\r\n"))
-			}()
-			return cli, nil
-		})
-		done := make(chan error, 1)
-		go func() { done <- cl.DialerConnect(d) }()
-		select {
-		case <-done:
-		case <-time.After(3 * stsPeerWait):
-			return Result{Obs: "?connect-did-not-return", Oracle: "harness: Connect did not return", Sig: "harness"}
-		}
-		mu.Lock()
-		n := len(dials)
-		second := ""
-		if n > 1 {
-			second = dials[1]
-		}
-		mu.Unlock()
-		if n < 2 {
-			lost++
-		} else if second != net.JoinHostPort(stsHost, "6697") {
-			return Result{Obs: "probe", Oracle: "redial-addr: redialled " + second, Sig: "closeatack"}
-		}
-		if cl.VerifSTSState().BeginUpgrade {
-			stuck++
-		}
-	}
-	oracle := ""
-	if lost > 0 || stuck > 0 {
-		oracle = fmt.Sprintf("upgrade-lost-on-close: server hangs up with the sts acknowledgement: %d/%d Connect calls returned without the secure redial, beginUpgrade left set in %d", lost, reps, stuck)
-	}
-	return Result{Obs: "probe", Oracle: oracle, Sig: "closeatack"}
+// The server acknowledges a policy on plaintext and hangs up at the same moment (what an
+// on-path attacker can always do).  Inside the client this is a race between handleCAP's
+// Close() and readLoop's EOF; since 52091d0 both orders end in the secure redial, so the
+// scenario is deterministic and is compared with the model like any other (end mode x; the
+// model reads it as "group.Wait() returns the I/O error").  Only shapes whose outcome does
+// not depend on that race are generated: a valid policy (upgrade either way) or DisableSTS
+// (no upgrade either way, Connect returns the I/O error).
+func closeAtAckCase(bits, port string, others []string, tail []string) Case {
+	adv := append([]string{"sts=port" + port}, others...)
+	ack := append([]string{"sts"}, others...)
+	c := Case{bits, "", "C", "L0,1,1,x", stsLS(adv...), stsACK(ack...)}
+	return append(c, tail...)
 }
 
-type stsFuncDialer func(addr string) (net.Conn, error)
+var closeAtAckTails = [][]string{
+	{"L0,1,1,c", stsLS("sts=duration=600,port=7000", "multi-prefix"), stsACK("sts", "multi-prefix"), "C", "L5,1,1,c"},
+	{"L0,1,1,e", stsLS("sts=duration=600"), stsACK("sts"), "C", "L5,0,1,c"},
+	{"L0,0,1,c", "C", "L0,1,1,c", stsLS("sts=port=6697"), stsACK("sts"), "L0,1,1,c"},
+	{"L0,1,0,c", "C", "L0,1,1,c"},
+	{"L0,1,1,c", stsLS("sts=port=6697"), stsACK("sts"), "C", "L0,1,1,c"},
+	{"L0,1,1,c", "C", "L400,1,1,c", "C", "L0,0,1,c"},
+}
 
-func (f stsFuncDialer) Dial(network, addr string) (net.Conn, error) { return f(addr) }
+func fixedCloseAtAck() []Case {
+	var out []Case
+	for _, bits := range []string{"", "F", "S", "D", "DF"} {
+		for i, tail := range closeAtAckTails {
+			port := []string{"=6697", "=21", "=65535", "=70000", "=+6697", "=6667"}[i%6]
+			var others []string
+			if i%2 == 1 {
+				others = []string{"multi-prefix"}
+			}
+			if bits == "S" {
+				others = append(others, "sasl")
+			}
+			out = append(out, closeAtAckCase(bits, port, others, tail))
+		}
+	}
+	return out
+}
+
+func genCloseAtAck(r *rand.Rand) Case {
+	bits := Pick(r, "", "", "F", "S", "FS", "D", "DF")
+	port := Pick(r, "=6697", "=21", "=65535", "=70000", "=+6697", "=6667", "=99999999999999999999")
+	var others []string
+	for _, o := range []string{"multi-prefix", "away-notify", "server-time"} {
+		if r.Intn(3) == 0 {
+			others = append(others, o)
+		}
+	}
+	if strings.Contains(bits, "S") && r.Intn(2) == 0 {
+		others = append(others, "sasl")
+	}
+	return closeAtAckCase(bits, port, others, closeAtAckTails[r.Intn(len(closeAtAckTails))])
+}
 
 func init() {
 	Register(&Suite{Name: "sts.scenarios", Prop: []string{"C10"}, Fixed: fixedSTSScenarios, Gen: genSTSScenario, Run: runSTSScenario})
@@ -1340,5 +1351,5 @@ func init() {
 		Exhaustive: "every port value x every duration value of the policy table on plaintext and on TLS, under four configurations",
 		Run:        runSTSScenario})
 	Register(&Suite{Name: "sts.expiry", Prop: []string{"C10"}, Fixed: fixedSTSExpiry, Gen: genSTSExpiry, Run: runSTSExpiry})
-	Register(&Suite{Name: "sts.closeatack", Prop: []string{"C10"}, Gen: func(*rand.Rand) Case { return Case{"probe"} }, Run: runSTSCloseAtAck})
+	Register(&Suite{Name: "sts.closeatack", Prop: []string{"C10"}, Fixed: fixedCloseAtAck, Gen: genCloseAtAck, Run: runSTSScenario})
 }
